@@ -314,3 +314,22 @@ Section Locked.
       rewrite upd_same. cbn [cur]. eauto.
   Qed.
 End Locked.
+
+Arguments Ret {S Out} r.
+Arguments Act {S Out} upd next.
+Arguments run_prog {S Out} p s.
+Arguments seq_run {S Op Out} step s ops.
+Arguments todo {S Op Out} t.
+Arguments cur {S Op Out} t.
+Arguments outs {S Op Out} t.
+Arguments shared {S Op Out} c.
+Arguments holder {S Op Out} c.
+Arguments threads {S Op Out} c _.
+Arguments acq {S Op Out} c.
+Arguments rets {S Op Out} c.
+Arguments sched {S Op Out} body cf i.
+Arguments init {S Op Out} s0 progs.
+Arguments exec {S Op Out} body cf schedule.
+Arguments mine {Op} i x.
+Arguments mine_out {Op Out} i x.
+Arguments enabled {S Op Out} cf i.
